@@ -196,20 +196,7 @@ func (a *Act) storeAtQuiet(st *State, addr string, t types.Type, v Val) {
 }
 
 func (a *Act) logAllKeys(t types.Type, wl *writeLog) {
-	g := a.vc.g
-	if si := g.structInfoOf(t); si != nil {
-		for i, f := range si.Fields {
-			if g.structInfoOf(f.T) != nil {
-				a.logAllKeys(f.T, wl)
-			} else {
-				k, _ := g.fieldHeapKey(si, i)
-				wl.heaps[k] = true
-			}
-		}
-		return
-	}
-	k, _ := memKey(g.sortOf(t))
-	wl.heaps[k] = true
+	// fresh allocations inside a loop: their initialisation does not disturb existing locations, nothing to havoc
 }
 
 func (a *Act) edge(st *State, from, to *ssa.BasicBlock, cond string, incoming map[*ssa.BasicBlock][]edgeIn, only map[*ssa.BasicBlock]bool) {
@@ -251,6 +238,7 @@ func (a *Act) unop(st *State, x *ssa.UnOp) Val {
 		if r.S != "" && !isAtom(r.S) {
 			r.S = a.vc.define("ld", r.Sort, r.S)
 		}
+		a.refFacts(st, r)
 		return r
 	case token.NOT:
 		return Val{S: not(v.S), Sort: sBool, T: x.Type()}
@@ -715,9 +703,9 @@ func (a *Act) mapUpdate(st *State, m, k, v Val, pos token.Pos) {
 	vc.setHeap(st, "ML", "(Array Int Int)", store(L, m.S, ite(had, sel(L, m.S), "(+ 1 "+sel(L, m.S)+")")))
 	vc.setHeap(st, dk, ds, store(D, m.S, store(sel(D, m.S), k.S, "true")))
 	vc.setHeap(st, vk, vs, store(V, m.S, store(sel(V, m.S), k.S, v.S)))
-	a.logHeap(dk)
-	a.logHeap(vk)
-	a.logHeap("ML")
+	a.logHeapAt(dk, m.S)
+	a.logHeapAt(vk, m.S)
+	a.logHeapAt("ML", m.S)
 }
 
 func (a *Act) mapDelete(st *State, m, k Val) {
@@ -730,8 +718,8 @@ func (a *Act) mapDelete(st *State, m, k Val) {
 	had := and(not(eq(m.S, "0")), sel(sel(D, m.S), k.S))
 	vc.setHeap(st, "ML", "(Array Int Int)", store(L, m.S, ite(had, "(- "+sel(L, m.S)+" 1)", sel(L, m.S))))
 	vc.setHeap(st, dk, ds, store(D, m.S, store(sel(D, m.S), k.S, "false")))
-	a.logHeap(dk)
-	a.logHeap("ML")
+	a.logHeapAt(dk, m.S)
+	a.logHeapAt("ML", m.S)
 }
 
 func (a *Act) mapClear(st *State, m Val) {
@@ -742,8 +730,8 @@ func (a *Act) mapClear(st *State, m Val) {
 	L := vc.getHeap(st, "ML", "(Array Int Int)")
 	vc.setHeap(st, "ML", "(Array Int Int)", store(L, m.S, "0"))
 	vc.setHeap(st, dk, ds, store(D, m.S, fmt.Sprintf("((as const (Array %s Bool)) false)", ks)))
-	a.logHeap(dk)
-	a.logHeap("ML")
+	a.logHeapAt(dk, m.S)
+	a.logHeapAt("ML", m.S)
 }
 
 func (a *Act) makeMap(st *State, t types.Type) Val {
@@ -903,7 +891,7 @@ func (a *Act) next(st *State, x *ssa.Next) Val {
 	vv := vc.define("nxv", it.valSort, sel(sel(vc.getHeap(st, vk, vs), m), k))
 	vc.setHeap(st, it.visited, srt, ite(ok, store(vis, k, "true"), vis))
 	if a.writeLog != nil {
-		a.writeLog.heaps[it.visited] = true
+		a.writeLog.note(it.visited, "")
 	}
 	val := Val{S: vv, Sort: it.valSort, T: it.vt}
 	a.refFacts(st, val)
